@@ -13,6 +13,10 @@ RULE = ("call sequences (same a / changing m, same m / changing a, interleaved j
         "inverse_mod: m in [-6, 200) x a in [-2m-1, 2m+1], large m with negative/zero/oversized a, non-coprime pairs, m = 0, 1, -1; "
         "polynomial helpers on random short lists; a case is distinct by its operation line; non-trivial = all")
 ASSUMPTIONS = [
+    "no RecursionError: numbertheory.jacobi is RECURSIVE; proved (C15.jacobi_recursion_depth): at most 2*floor(log2 n)+3 nested calls, i.e. "
+    "<= 2k+1 frames for a k-bit modulus, below CPython's default recursion limit 1000 (minus caller frames) for moduli up to ~480 bits; "
+    "for the 512/521-bit curve moduli the depth measured in the search is ~0.4 per bit (recorded in the evidence, must stay < 600); "
+    "from ~4096-bit moduli on a RecursionError is possible and is NOT modelled",
     "pow(a, -1, m) and pow(b, e, m) are CPython primitives: modelled (extended Euclid / square-and-multiply), tied by correspondence",
     "sqrt theorems assume p prime (hypothesis Nat.Prime p); primality of the 34 curve constants is a hypothesis (DESIGN.md section 4)",
     "the gmpy/gmpy2 variants of inverse_mod are not modelled (not installed); the pre-3.8 fallback loop is translated and proved equal "
@@ -324,8 +328,48 @@ def big_composites(ctx):
     return [(n, f) for (n, f) in out if n.bit_length() > 160]
 
 
+def jacobi_depth(nt, a, n):
+    """recursion depth the real jacobi(a, n) reaches (the recursive call resolves the module global)"""
+    d = [0, 0]
+    orig = nt.jacobi
+
+    def w(a, n):
+        d[0] += 1
+        d[1] = max(d[1], d[0])
+        try:
+            return orig(a, n)
+        finally:
+            d[0] -= 1
+    nt.jacobi = w
+    try:
+        w(a, n)
+    finally:
+        nt.jacobi = orig
+    return d[1]
+
+
 def search_round2(ctx, nt):
     n_eval = 0
+    # recursion depth of jacobi on the largest moduli in use (assumption "no RecursionError")
+    from ecdsa.curves import curves
+    worst = 0
+    fib = [1, 1]
+    while fib[-1].bit_length() < 530:
+        fib.append(fib[-1] + fib[-2])
+    pairs = [(fib[i], fib[i + 1]) for i in range(len(fib) - 1) if fib[i + 1] % 2 == 1 and fib[i + 1] >= 3]
+    for cv in curves:
+        for m in (cv.curve.p(), cv.order):
+            pairs += [(ctx.rng.randrange(m), m) for _ in range(2 if ctx.quick else 20)]
+    for a, n in pairs:
+        dd = jacobi_depth(nt, a, n)
+        n_eval += 1
+        worst = max(worst, dd)
+        if dd > 2 * n.bit_length() + 1:
+            ctx.violation({"input": {"fn": "jacobi", "a": a, "n": n}, "observed": "recursion depth %d" % dd,
+                           "expected": "<= 2*bitlen(n)+1 (C15.jacobi_recursion_depth)"})
+    ctx.cov["jacobi_max_recursion_depth"] = worst
+    if worst >= 600:
+        ctx.problem("assumption", "jacobi recursion depth %d on the curve-sized moduli approaches the interpreter limit" % worst)
     # call sequences
     for seq in sequence_cases(ctx):
         n_eval += len(seq)
